@@ -467,7 +467,13 @@ const richParentSummary = `{"uuid":"4213ac47-93fd-48c4-af12-7da8218ef09d","flow"
 func (g *richGen) trigger(contact map[string]any) map[string]any {
 	r := g.r
 	t := map[string]any{"flow": flowRefJSON(1), "contact": contact, "triggered_on": "2019-12-31T11:40:30.123456789-00:00"}
-	switch r.Intn(8) {
+	switch r.Intn(10) {
+	case 8:
+		t["type"] = "optin"
+		t["event"] = map[string]any{"type": hx.Pick(r, []string{"started", "stopped"}), "optin": map[string]any{"uuid": optinUUID, "name": "Joke Of The Day"}}
+	case 9:
+		t["type"] = "campaign"
+		t["event"] = map[string]any{"uuid": "34d16dbd-476d-4b77-bac3-9f3d597848cc", "campaign": map[string]any{"uuid": "58e9b092-fe42-4173-876c-ff45a14a24fe", "name": "New Mothers"}}
 	case 0, 1:
 		t["type"] = "msg"
 		t["msg"] = msgJSON(r, 0)
@@ -621,6 +627,7 @@ func genRich(r *hx.Rand, idx int, seed int64) *Scenario {
 			}
 			return engine.NewSessionAssets(envs.NewBuilder().Build(), src, nil)
 		},
+		LoadWithout: func(kind string) (flows.SessionAssets, error) { return assetsWithout(assetsJSON, kind) },
 		NewEngine: func() flows.Engine {
 			b := engine.NewBuilder()
 			if small {
@@ -866,7 +873,8 @@ func genFocused(r *hx.Rand, idx int, seed int64) *Scenario {
 			}
 			return engine.NewSessionAssets(envs.NewBuilder().Build(), src, nil)
 		},
-		NewEngine: func() flows.Engine { return serviceEngine(engine.NewBuilder()) },
+		LoadWithout: func(kind string) (flows.SessionAssets, error) { return assetsWithout(assetsJSON, kind) },
+		NewEngine:   func() flows.Engine { return serviceEngine(engine.NewBuilder()) },
 		MakeTrigger: func(sa flows.SessionAssets) (flows.Trigger, error) {
 			if viaBuilder {
 				if t, err := buildTrigger(sa, trig); t != nil || err != nil {
@@ -886,4 +894,25 @@ func genFocused(r *hx.Rand, idx int, seed int64) *Scenario {
 			"trigger_via_builder": viaBuilder},
 		Tags: tags,
 	}
+}
+
+// assetsWithout deletes every asset of one kind from an assets JSON
+func assetsWithout(assetsJSON []byte, kind string) (flows.SessionAssets, error) {
+	var m map[string]any
+	if err := json.Unmarshal(assetsJSON, &m); err != nil {
+		return nil, err
+	}
+	if kind == "other-flows" {
+		if fl, ok := m["flows"].([]any); ok && len(fl) > 1 {
+			m["flows"] = fl[:1]
+		}
+	} else {
+		delete(m, kind)
+	}
+	b, _ := json.Marshal(m)
+	src, err := static.NewSource(b)
+	if err != nil {
+		return nil, err
+	}
+	return engine.NewSessionAssets(envs.NewBuilder().Build(), src, nil)
 }
